@@ -9,6 +9,7 @@ T: long random histories (thousands of transactions, output indices past 255): s
    real run validated against Utxo.tla's effects (Trace_Utxo), incl. the `hit` flag of every removal
 """
 import json
+import os
 import random
 
 from lib import btc, chains, ref, run, tracecheck, utxohist
@@ -29,11 +30,19 @@ def parse_csv(data, header):
     return set(rows), probs
 
 
-def run_both(w, d, nblk, coin='bitcoin', start=None, trace=False):
+def run_both(w, d, nblk, coin='bitcoin', start=None, trace=False, stale=False):
     out = {}
     for cb, pre, header in (('unspentcsvdump', 'unspent', 'txid;indexOut;height;value;address'), ('balances', 'balances', 'address;balance')):
         tr = w.sub('trace') if trace else None
-        r = run.run_parser(d.path, cb, dump=w.mk('out'), coin=coin, start=start, trace=tr, skip=SKIP)
+        dump = w.mk('out')
+        if stale:
+            # leftovers of an interrupted earlier run (longer than the new output) must not leak into the result
+            junk = ('%s;0;0;5000000000;1BoatSLRHtKNngkdXEeobR76b53LETtpyT\n' % ('ab' * 32)).encode() * 60
+            for n in ('unspent.csv.tmp', 'balances.csv.tmp'):
+                with open(os.path.join(dump, n), 'wb') as f:
+                    f.write(junk)
+        r = run.run_parser(d.path, cb, dump=dump, coin=coin, start=start, trace=tr, skip=SKIP)
+        r.files = {k: v for k, v in r.files.items() if not k.endswith('.tmp')}
         name = '%s-%d-%d.csv' % (pre, start or 0, nblk - 1)
         rows, probs = (set(), ['%s missing (exit %d, have %s) %s' % (name, r.rc, r.listing, r.stderr[-200:])]) if name not in r.files else parse_csv(r.files[name], header)
         out[cb] = (r, rows, probs, tr)
@@ -54,7 +63,7 @@ def check_history(ck, w, pid, hist, rows, bal, coin, label, tags=()):
     except utxohist.Cyclic:
         return 'cyclic'
     d = utxohist.write_chain(w, blocks, coin)
-    out = run_both(w, d, len(blocks), coin)
+    out = run_both(w, d, len(blocks), coin, stale=len(hist) % 2 == 0 and hist[0]['ins'][0]['i'] == 0)
     exp_u, exp_b = utxohist.expected_rows(rows, bal, txids, coin=coin)
     ru, urows, uprobs, _ = out['unspentcsvdump']
     rb, brows, bprobs, _ = out['balances']
